@@ -402,7 +402,7 @@ class P:
                 while self.eat("|"):
                     raise Unsupported("or-patterns")
                 self.expect("=>")
-                body = self.expr()
+                body = self.block() if self.at("{") else self.expr()      # a block arm ends at its brace
                 self.eat(",")
                 arms.append((pat, body))
             self.expect("}")
